@@ -2,6 +2,7 @@ package props
 
 import (
 	"fmt"
+	"go/token"
 	"regexp"
 
 	"golang.org/x/tools/go/ssa"
@@ -119,6 +120,28 @@ func c11Sanitisers(c *eng.Ctx) {
 					c.Clause("R5", "C11.5")
 					c.Prov(f, "callback given to hashMap", hm, hm.Common().Args[0], `^func:closure:salt\.\(\*Salt\)\.GetIdentifiedHMAC\$bound$`)
 					c.Prov(f, "structure given to hashMap", hm, hm.Common().Args[1], sf.origin)
+					// ... and it is the very value stored into the copy, judged at the call: a load of the
+					// copy's field before the overwrite still sees the input's live map
+					site := "hashed{" + sf.field + "} is the value stored into the copy"
+					vals, fromInput := c11ValuesAt(copyAlloc, sf.field, hm.Common().Args[1], hm)
+					stored := map[ssa.Value]bool{}
+					for _, st := range stores {
+						stored[c11Strip(st.(*ssa.Store).Val)] = true
+					}
+					bad := ""
+					for _, v := range vals {
+						if !stored[c11Strip(v)] {
+							bad = eng.Expr(v)
+						}
+					}
+					switch {
+					case fromInput:
+						c.Violation(f, site, hm.Pos(), "hashMap is applied to the copy's field "+sf.field+" as it stands before the overwrite, i.e. to the input's own live map: the caller's data is hashed in place while the unhashed JSON copy is what gets stored into the entry", nil)
+					case bad != "" || len(vals) == 0:
+						c.Violation(f, site, hm.Pos(), "the structure handed to hashMap ("+bad+") is not the value that is stored into the copy's "+sf.field, nil)
+					default:
+						c.OK(f, site, hm.Pos(), "hashMap receives the same SSA value that the overwrite of "+sf.field+" stores (resolved flow-sensitively at the call)")
+					}
 				}
 			}
 		}
@@ -141,6 +164,76 @@ func c11Sanitisers(c *eng.Ctx) {
 		}
 		c.Floor(f, "reflectwalk.Walk call", len(eng.Calls(f, `reflectwalk\.Walk$`)), 1)
 	}
+}
+
+// c11Strip removes value-preserving wrappers.
+func c11Strip(v ssa.Value) ssa.Value {
+	for {
+		switch x := v.(type) {
+		case *ssa.MakeInterface:
+			v = x.X
+		case *ssa.ChangeType:
+			v = x.X
+		case *ssa.ChangeInterface:
+			v = x.X
+		default:
+			return v
+		}
+	}
+}
+
+// c11ValuesAt resolves v as seen by instruction `at`: if v is a load of
+// cp.field (cp a local struct), the values of the stores to that field that
+// can still be its content when the load executes; fromInput reports that the
+// content may (also) be what the whole-struct initialisation `cp = *in` put
+// there, i.e. the input's own field. Any other v is returned as is.
+func c11ValuesAt(cp *ssa.Alloc, field string, v ssa.Value, at ssa.Instruction) (vals []ssa.Value, fromInput bool) {
+	v = c11Strip(v)
+	ld, ok := v.(*ssa.UnOp)
+	if !ok || ld.Op != token.MUL {
+		return []ssa.Value{v}, false
+	}
+	fa, ok := ld.X.(*ssa.FieldAddr)
+	if !ok || fa.X != ssa.Value(cp) || eng.FieldVar(fa) == nil || eng.FieldVar(fa).Name() != field {
+		return []ssa.Value{v}, false
+	}
+	var defs []ssa.Instruction
+	whole := map[ssa.Instruction]bool{}
+	for _, st := range fieldStores(cp, field) {
+		defs = append(defs, st)
+	}
+	if refs := cp.Referrers(); refs != nil {
+		for _, r := range *refs {
+			if st, ok := r.(*ssa.Store); ok && st.Addr == ssa.Value(cp) {
+				defs = append(defs, st)
+				whole[st] = true
+			}
+		}
+	}
+	isLoad := func(in ssa.Instruction) bool { return in == ssa.Instruction(ld) }
+	for _, d := range defs {
+		var others []ssa.Instruction
+		for _, o := range defs {
+			if o != d {
+				others = append(others, o)
+			}
+		}
+		if eng.Reach(eng.Query{Fn: cp.Parent(), StartAfter: d, Barriers: others, Target: isLoad}) == nil {
+			continue
+		}
+		if whole[d] {
+			fromInput = true
+		} else {
+			vals = append(vals, d.(*ssa.Store).Val)
+		}
+	}
+	// no definition reaches: the zero value of the local
+	if len(vals) == 0 && !fromInput {
+		if eng.Reach(eng.Query{Fn: cp.Parent(), Barriers: defs, Target: isLoad}) != nil {
+			fromInput = true
+		}
+	}
+	return vals, fromInput
 }
 
 func rootAlloc(v ssa.Value) ssa.Value {
